@@ -40,7 +40,8 @@ class Env:
     common.bootstrap_pytype()
     import msgspec  # pylint: disable=import-outside-toplevel
     from pytype import config, io, load_pytd  # pylint: disable=import-outside-toplevel
-    from pytype.imports import pickle_utils  # pylint: disable=import-outside-toplevel
+    from pytype.imports import builtin_stubs, pickle_utils  # pylint: disable=import-outside-toplevel
+    self.builtin_stubs = builtin_stubs
     from pytype.pyi import parser  # pylint: disable=import-outside-toplevel
     from pytype.pytd import pytd, pytd_utils, serialize_ast, visitors, pytd_visitors  # pylint: disable=import-outside-toplevel
     self.msgspec = msgspec
@@ -109,24 +110,50 @@ def prepared_expectation(env, ast):
   return ast.Visit(env.pytd_visitors.CanonicalOrderingVisitor())
 
 
+def all_classes(ast):
+  todo = list(ast.classes)
+  while todo:
+    c = todo.pop()
+    yield c
+    todo.extend(c.classes)
+
+
+def lookups_return_nodes(env, ast):
+  """Every declared name, looked up in the (decoded) module / class, is the declared pytd node."""
+  for scope, groups in [(ast, (ast.constants, ast.functions, ast.classes, ast.aliases))] + [
+      (c, (c.methods, c.constants, c.classes)) for c in all_classes(ast)]:
+    for items in groups:
+      for item in items:
+        got = scope.Get(item.name)
+        if not isinstance(got, env.pytd.Node):
+          return "%s.Lookup(%r) returns %s" % (scope.name, item.name, type(got).__name__)
+        if (item.name in scope) is not True:
+          return "%r in %s is not True" % (item.name, scope.name)
+  return None
+
+
 def roundtrip_real(env, ast, src_path=None, metadata=None):
   """Returns dict(sa, b1, sa2 | error, oracle flags)."""
   out = {}
   expected = prepared_expectation(env, ast)
   sa = env.serialize_ast.SerializeAst(ast, src_path=src_path, metadata=metadata)
   out["sa"] = sa
+  out["sa_tokens"] = c12_gen.value_tokens(sa)
   try:
     b1 = env.pickle_utils.Encode(sa)
   except Exception as e:  # pylint: disable=broad-except
     out["error"] = "encode: %s: %s" % (type(e).__name__, e)
     return out
   out["b1"] = b1
+  # the lookup caches are private state, not declarations: nothing of them may be written
+  out["cache_in_bytes"] = b"_name2item" in b1
   try:
     sa2 = env.pickle_utils.DecodeAst(b1)
   except Exception as e:  # pylint: disable=broad-except
     out["error"] = "decode: %s: %s" % (type(e).__name__, e)
     return out
   out["sa2"] = sa2
+  out["sa2_tokens"] = c12_gen.value_tokens(sa2)
   out["ast_eq"] = bool(env.pytd_utils.ASTeq(sa2.ast, expected)) and sa2.ast.name == expected.name
   out["rest_eq"] = (sa2.dependencies == sa.dependencies and sa2.late_dependencies == sa.late_dependencies
                     and sa2.src_path == sa.src_path and sa2.metadata == sa.metadata
@@ -135,18 +162,34 @@ def roundtrip_real(env, ast, src_path=None, metadata=None):
     out["bytes_eq"] = env.pickle_utils.Encode(sa2) == b1
   except Exception as e:  # pylint: disable=broad-except
     out["bytes_eq"] = False
+  # the decoded declarations are usable: lookups give pytd nodes (this fills the decoded AST's caches) ...
+  try:
+    out["lookup_fail"] = lookups_return_nodes(env, sa2.ast)
+  except Exception as e:  # pylint: disable=broad-except
+    out["lookup_fail"] = "lookup on the decoded AST raises %s" % type(e).__name__
+  # ... and serialising the decoded, used AST again (the API for ASTs) gives the same bytes
+  try:
+    out["reserialize_eq"] = env.pickle_utils.Serialize(sa2.ast, src_path=src_path, metadata=metadata) == b1
+  except Exception as e:  # pylint: disable=broad-except
+    out["reserialize_eq"] = False
   return out
 
 
 def oracle_failure(rt):
   if "error" in rt:
     return rt["error"]
+  if rt["cache_in_bytes"]:
+    return "lookup cache (_name2item) written into the serialised bytes"
   if not rt["ast_eq"]:
     return "decoded AST != canonically ordered original (ASTeq)"
   if not rt["rest_eq"]:
     return "decoded dependencies/metadata/class_type_nodes differ"
   if not rt["bytes_eq"]:
     return "second encode differs from the first"
+  if rt["lookup_fail"]:
+    return "decoded AST unusable: " + rt["lookup_fail"]
+  if not rt["reserialize_eq"]:
+    return "Serialize(decoded AST) after lookups differs from the first bytes"
   return None
 
 
@@ -325,6 +368,203 @@ def union_many(x):
 ]
 
 
+# stubs loaded through load_pytd.Loader: local and nested class references, aliases, a method-less class, a
+# function-less module; names deliberately both in and out of sorted order
+HIST_MODULES = {
+    "foo": """
+from typing import List, Optional
+class Settings:
+    depth: int
+    name: str
+    class Limits:
+        high: int
+        low: int
+class Empty: ...
+class Node:
+    kids: List['Node']
+    next: Optional['Node']
+class Zed:
+    b: int
+    a: Settings
+Alias = Settings
+current: Settings
+inner: Settings.Limits
+limit: int
+""",
+    "bar": """
+import foo
+from foo import Settings
+def get() -> Settings: ...
+def lim(x: foo.Empty) -> foo.Node: ...
+class Sub(Settings):
+    extra: foo.Empty
+""",
+    "baz": """
+import foo as f
+x: f.Settings
+y: int
+class OnlyAttrs:
+    a: int
+    b: f.Node
+""",
+}
+
+HIST_PROGRAMS = [
+    """
+class Settings:
+    depth: int = 0
+    name: str = ""
+current = Settings()
+limit = 3
+""",
+    """
+class Zeta:
+    b = 1
+    a = 'x'
+    class Inner:
+        k = 2
+class Alpha:
+    z: Zeta = Zeta()
+holder = Alpha()
+n = 0
+""",
+]
+
+
+def apply_history(env, r, ast, module_map=None):
+  """What happens to an AST before it is serialised: lookups, printing, verification, pointer filling - in a
+  random order and number.  Returns the AST (LookupExternalTypes may rebuild it)."""
+  ops = []
+  def lookups(scope, names):
+    for n in names:
+      k = r.randrange(3)
+      if k == 0:
+        scope.Lookup(n)
+      elif k == 1:
+        scope.Get(n)
+      else:
+        _ = n in scope
+    scope.Get("no_such_name")
+  def op_module_lookups(a):
+    names = [x.name for g in (a.constants, a.functions, a.classes, a.aliases) for x in g]
+    lookups(a, r.sample(names, r.randint(1, len(names))) if names else [])
+    return a
+  def op_class_lookups(a):
+    for c in all_classes(a):
+      names = [x.name for g in (c.methods, c.constants, c.classes) for x in g]
+      if names and r.random() < 0.8:
+        lookups(c, r.sample(names, r.randint(1, len(names))))
+      elif r.random() < 0.5:
+        c.Get("nothing")
+    return a
+  def op_print(a):
+    env.pytd_utils.Print(a)
+    return a
+  def op_verify(a):
+    a.Visit(env.visitors.VerifyVisitor())
+    return a
+  def op_fill(a):
+    a.Visit(env.visitors.FillInLocalPointers({"": a, a.name: a}))
+    return a
+  def op_external(a):
+    if module_map is None:
+      return a
+    try:
+      return a.Visit(env.visitors.LookupExternalTypes(module_map, self_name=a.name))
+    except Exception:  # pylint: disable=broad-except
+      return a
+  pool = [op_module_lookups, op_class_lookups, op_print, op_verify, op_fill, op_external]
+  for _ in range(r.randint(2, 6)):
+    ops.append(r.choice(pool))
+  if not any(o in (op_module_lookups, op_class_lookups) for o in ops):
+    ops.insert(r.randrange(len(ops) + 1), r.choice([op_module_lookups, op_class_lookups]))
+  for o in ops:
+    try:
+      ast = o(ast)
+    except Exception:  # pylint: disable=broad-except
+      pass
+  return ast
+
+
+def hist_dir():
+  d = os.path.join(common.BUILD, "c12", "hist")
+  os.makedirs(d, exist_ok=True)
+  for name, text in HIST_MODULES.items():
+    common.write_if_changed(os.path.join(d, name + ".pyi"), text)
+  return d
+
+
+def hist_loader(env):
+  opts = env.config.Options.create(python_version=(3, 12), pythonpath=hist_dir())
+  loader = env.load_pytd.create_loader(opts)
+  for m in ("bar", "baz", "foo"):
+    loader.import_name(m)
+  return loader
+
+
+def history_cases(env, r, n_programs):
+  """Yields (name, ast, replay, plain_bytes_or_None): ASTs with a real pre-serialisation history, and - where
+  the same declarations can be had without that history - the bytes they must serialise to."""
+  out = []
+  # (1) modules imported by a Loader (resolved against each other and the builtins), then used
+  plain = hist_loader(env)
+  plain_bytes = {}
+  for name in HIST_MODULES:
+    m = plain._modules[name]  # pylint: disable=protected-access
+    plain_bytes[name] = env.pickle_utils.Serialize(m.ast, src_path="hist/%s.py" % name, metadata=["m:hist:" + name])
+  used = hist_loader(env)
+  mmap = used._modules.get_module_map()  # pylint: disable=protected-access
+  for name in HIST_MODULES:
+    ast = apply_history(env, r, used._modules[name].ast, mmap)  # pylint: disable=protected-access
+    out.append(("hist:" + name, ast, {"kind": "history", "case": "hist:" + name}, plain_bytes[name]))
+  # (2) the inferred AST of a program, prepared for export as io.write_pickle does, then used
+  loader = env.load_pytd.create_loader(env.options)
+  for i, src in enumerate(HIST_PROGRAMS[:n_programs]):
+    mod = "hprog%d" % i
+    ret, _ = env.io.generate_pyi(src, env.options, loader)
+    a0 = env.serialize_ast.PrepareForExport(mod, ret.ast, loader)
+    b0 = env.pickle_utils.Serialize(a0, src_path="hist/%s.py" % mod, metadata=["m:hist:" + mod])
+    a1 = env.serialize_ast.PrepareForExport(mod, ret.ast, loader)
+    a1 = apply_history(env, r, a1)
+    out.append(("hist:" + mod, a1, {"kind": "history", "case": "hist:" + mod}, b0))
+  return out
+
+
+def bundle_cases(env, r, res):
+  """Loader.save_to_pickle / LoadBuiltins: the bundle of a loader whose modules were used."""
+  loader = hist_loader(env)
+  mmap = loader._modules.get_module_map()  # pylint: disable=protected-access
+  for name in list(HIST_MODULES) + ["builtins"]:
+    loader._modules[name].ast = apply_history(env, r, loader._modules[name].ast, None if name == "builtins" else mmap)  # pylint: disable=protected-access
+  originals = {name: prepared_expectation(env, m.ast) for name, m in loader._modules.items()}  # pylint: disable=protected-access
+  path = os.path.join(common.BUILD, "c12", "hist", "bundle_%d.pickle" % os.getpid())
+  loader.save_to_pickle(path)
+  items = dict(env.pickle_utils.LoadBuiltins(path, compress=True))
+  os.unlink(path)
+  fails = []
+  for name, raw in sorted(items.items()):
+    data = bytes(raw)
+    fail = None
+    if b"_name2item" in data:
+      fail = "lookup cache (_name2item) written into the serialised bytes"
+    else:
+      try:
+        dec = env.pickle_utils.DecodeAst(data)
+        if env.pickle_utils.Encode(dec) != data:
+          fail = "second encode differs from the first"
+        elif not env.pytd_utils.ASTeq(dec.ast, originals[name]):
+          fail = "decoded AST != canonically ordered original (ASTeq)"
+        else:
+          lf = lookups_return_nodes(env, dec.ast)
+          if lf:
+            fail = "decoded AST unusable: " + lf
+      except Exception as e:  # pylint: disable=broad-except
+        fail = "decode: %s: %s" % (type(e).__name__, e)
+    if fail:
+      fails.append((name, fail))
+  return len(items), fails
+
+
 def parse_pyi(env, text, name):
   return env.parser.parse_string(text, name=name, filename=name + ".pyi", options=env.pyi_options)
 
@@ -424,9 +664,18 @@ def run(res):
       "(all 17 type forms incl. nested unions, literals of every kind, TypeVars/ParamSpecs, "
       "signatures/parameters/classes/aliases), parsed .pyi texts (3 templates x type fillers), the bundled "
       "builtins/typing stubs (raw parse and the loader's resolved ASTs), ASTs emitted for generated programs via "
-      "PrepareForExport; each goes SerializeAst -> Encode -> DecodeAst -> Encode. Node-level values that violate "
+      "PrepareForExport; stubs imported by a load_pytd.Loader (local/nested class references, aliases, a "
+      "method-less class, a function-less module) and exported program ASTs AFTER a random history of "
+      "Lookup/Get/in, Print, VerifyVisitor, FillInLocalPointers, LookupExternalTypes, and the loader's "
+      "save_to_pickle/LoadBuiltins bundle; each goes SerializeAst -> Encode -> DecodeAst -> Encode, then lookups on "
+      "the decoded AST must give pytd nodes, Serialize(decoded) must give the first bytes, no lookup cache may be "
+      "in the bytes, and the bytes must equal those of the same declarations serialised unused. "
+      "Node-level values that violate "
       "the schema (%d hand-written classes of violation) and random mutations of real msgpack trees are decoded "
-      "by both sides. ==/hash: all ordered pairs of a pool of type nodes with union-permuted twins. "
+      "by both sides. ==/hash: all ordered pairs of a pool of type nodes with union-permuted twins, and of a pool of "
+      "RESOLVED nodes (class pointers set by LookupExternalTypes/FillInLocalPointers and by hand: one class under "
+      "two names, two classes under one name, resolved next to unresolved, generics/unions/tuples/callables over "
+      "them) with symmetry, transitivity, set/dict de-duplication and equal-before <=> equal-after pickling. "
       "A case is non-trivial if it contains at least one struct node; distinct by its token string."
       % len(c12_gen.negatives(Env.pytd_stub(), Env.pytd_stub())))
   res.assumptions = [
@@ -486,6 +735,10 @@ def run(res):
   for a, b in corpus_pairs:
     pool += [a, b]
   eq_hash(env, res, model, pool, stats, mism, hv)
+  # resolved nodes (class pointers set): one class under two names, two classes under one name, ...
+  rpool, rast = resolved_pool(env)
+  eq_hash(env, res, model, rpool, stats, mism, [hv[0]], decide=False, resolved=True)
+  resolved_oracles(env, res, rpool, rast, stats)
   if thorough:
     # exhaustive small scope: every ordering of every non-empty subset (<= 3 members) of four atoms, as union
     # and as intersection, bare, inside a generic, and inside an outer union
@@ -523,6 +776,27 @@ def run(res):
     cases.append(("stub-loaded:" + mod, loader._modules[mod].ast, {"kind": "stub-loaded", "module": mod}, True))  # pylint: disable=protected-access
   for name, ast, rp, must_be_in_g in cases:
     ast_case(env, res, model, hv[0], name, ast, rp, must_be_in_g, stats, mism)
+  # serialising the loader's builtins cleared the class pointers of the process-wide cached builtins AST in
+  # place; pytype's own save_to_pickle discards that cache for this reason, and so must we
+  env.builtin_stubs.InvalidateCache()
+  # ASTs with a real history before serialisation (loader resolution, lookups, printing, verification ...)
+  rh = common.rng(res.seed, "c12-history")
+  for rep in range(3 if thorough else 1):
+    for name, ast, rp, plain_bytes in history_cases(env, rh, len(HIST_PROGRAMS)):
+      rp = dict(rp, seed=res.seed, rep=rep)
+      rt = ast_case(env, res, model, hv[0], "%s#%d" % (name, rep), ast, rp, True, stats, mism,
+                    src_path="hist/%s.py" % name.split(":")[1], metadata=["m:" + name])
+      stats["history_asts"] = stats.get("history_asts", 0) + 1
+      if rt is not None and "b1" in rt and rt["b1"] != plain_bytes and len(res.violations) < 3:
+        res.violation("bytes-depend-on-lookup-history",
+                      "%s: serialising the declarations after lookups/printing/verification gives other bytes "
+                      "than serialising them unused (%d vs %d bytes)" % (name, len(rt["b1"]), len(plain_bytes)), rp)
+    n_items, fails = bundle_cases(env, rh, res)
+    stats["bundle_modules"] = stats.get("bundle_modules", 0) + n_items
+    for mod, fail in fails[:2]:
+      if len(res.violations) < 3:
+        res.violation("bundle:" + fail.split(":")[0][:60], "save_to_pickle/LoadBuiltins, module %s: %s" % (mod, fail),
+                      {"kind": "bundle", "seed": res.seed, "rep": rep, "module": mod})
   if model:
     model.flush()
   lap("whole-AST round trips")
@@ -555,11 +829,11 @@ def count_nodes(tokens):
   return sum(1 for t in tokens if t == "c")
 
 
-def ast_case(env, res, model, hv, name, ast, replay_obj, must_be_in_g, stats, mism):
-  rt = roundtrip_real(env, ast, src_path=name + ".py", metadata=["m:" + name])
+def ast_case(env, res, model, hv, name, ast, replay_obj, must_be_in_g, stats, mism, src_path=None, metadata=None):
+  rt = roundtrip_real(env, ast, src_path=src_path or name + ".py", metadata=metadata or ["m:" + name])
   fail = oracle_failure(rt)
   sa = rt["sa"]
-  vt = c12_gen.value_tokens(sa)
+  vt = rt["sa_tokens"]
   stats["asts"] += 1
   n_nodes = count_nodes(vt)
   stats["ast_nodes"] += n_nodes
@@ -568,7 +842,7 @@ def ast_case(env, res, model, hv, name, ast, replay_obj, must_be_in_g, stats, mi
     res.sample({"case": name, "nodes": n_nodes, "bytes": len(rt.get("b1", b"")), "oracle": fail or "round trip ok"})
   real_ok = False
   if "sa2" in rt:
-    real_ok = c12_gen.value_tokens(rt["sa2"]) == vt
+    real_ok = rt["sa2_tokens"] == vt
     if not real_ok and not fail:
       fail = "decoded SerializableAst differs structurally from the one encoded"
   if fail:
@@ -580,7 +854,7 @@ def ast_case(env, res, model, hv, name, ast, replay_obj, must_be_in_g, stats, mi
       small = shrink_case(env, ast, replay_obj, kind)
       res.violation("roundtrip:" + kind, "%s: %s" % (name, fail), small)
   if not model:
-    return
+    return rt
   def note(kind, want):
     def cb(ans):
       if ans != want:
@@ -591,7 +865,7 @@ def ast_case(env, res, model, hv, name, ast, replay_obj, must_be_in_g, stats, mi
     mt = c12_gen.mval_tokens(env.msgspec.msgpack.decode(rt["b1"]))
     model.ask(["E"] + vt + mt, note("encode-tree", "1"))
     if "sa2" in rt:
-      model.ask(["D", hv, "S:SerializableAst"] + mt + c12_gen.value_tokens(rt["sa2"]), note("decode-value", "S1"))
+      model.ask(["D", hv, "S:SerializableAst"] + mt + rt["sa2_tokens"], note("decode-value", "S1"))
     else:
       model.ask(["D", hv, "S:SerializableAst"] + mt + ["!"], note("decode-fails", "F1"))
   if must_be_in_g is None:
@@ -600,6 +874,7 @@ def ast_case(env, res, model, hv, name, ast, replay_obj, must_be_in_g, stats, mi
     model.ask(["G"] + vt, note("emitted/loaded-AST-in-G", "1"))
   else:
     model.ask(["G"] + vt, note("generated-AST-in-G", "1"))
+  return rt
 
 
 def failure_kind(env, ast):
@@ -608,7 +883,7 @@ def failure_kind(env, ast):
   except Exception as e:  # pylint: disable=broad-except
     return "crash:" + type(e).__name__
   fail = oracle_failure(rt)
-  if not fail and "sa2" in rt and c12_gen.value_tokens(rt["sa2"]) != c12_gen.value_tokens(rt["sa"]):
+  if not fail and "sa2" in rt and rt["sa2_tokens"] != rt["sa_tokens"]:
     fail = "decoded SerializableAst differs structurally from the one encoded"
   return fail.split(":")[0][:60] if fail else None
 
@@ -798,6 +1073,177 @@ def raw_cases(env, res, model, hv, r, g, stats, mism, n):
   res.extra["raw_mutation_histogram"] = kinds
 
 
+RESOLVED_SRC = """
+import builtins
+from typing import Callable, List, Tuple, Union
+
+class Box:
+    item: int
+    other: builtins.int
+    many: List[int]
+    more: List[builtins.int]
+    pair: Tuple[int, builtins.str]
+    fn: Callable[[builtins.int], str]
+    me: 'Box'
+
+class Crate(Box):
+    inner: Box
+
+Alias = Box
+
+def f(x: Union[int, str, builtins.int]) -> Union[builtins.str, str]: ...
+def g(b: Box, a: Alias, c: List[Box]) -> Tuple[Box, ...]: ...
+"""
+
+
+def resolved_ast(env):
+  """A stub resolved the way the loader / pytd's ParseWithBuiltins do: class pointers set."""
+  loader = env.load_pytd.create_loader(env.options)
+  v = env.visitors
+  ast = parse_pyi(env, RESOLVED_SRC, "res")
+  ast = ast.Visit(v.LookupExternalTypes({"builtins": loader.builtins, "typing": loader.typing}, self_name="res"))
+  ast = ast.Visit(v.NamedTypeToClassType())
+  ast = ast.Visit(v.AdjustTypeParameters())
+  ast.Visit(v.FillInLocalPointers({"": ast, "res": ast, "builtins": loader.builtins, "typing": loader.typing}))
+  ast.Visit(v.VerifyVisitor())
+  return ast, loader
+
+
+def collect_types(env, ast):
+  out = []
+
+  class V(env.visitors.Visitor):
+
+    def EnterClassType(self, t):  # pylint: disable=invalid-name
+      out.append(t)
+
+    def EnterGenericType(self, t):  # pylint: disable=invalid-name
+      out.append(t)
+
+    def EnterTupleType(self, t):  # pylint: disable=invalid-name
+      out.append(t)
+
+    def EnterCallableType(self, t):  # pylint: disable=invalid-name
+      out.append(t)
+
+    def EnterUnionType(self, t):  # pylint: disable=invalid-name
+      out.append(t)
+  ast.Visit(V())
+  return out
+
+
+def resolved_pool(env):
+  """Deterministic pool of RESOLVED type nodes: the same class under two names, two classes under one name,
+  resolved next to unresolved, and generics/unions/tuples/callables over them."""
+  p = env.pytd
+  ast, loader = resolved_ast(env)
+  pool = collect_types(env, ast)
+  mk = lambda name, **kw: p.Class(**{**dict(name=name, keywords=(), bases=(), methods=(), constants=(), classes=(),
+                                            decorators=(), slots=None, template=()), **kw})
+  c1 = mk("m.A")
+  c2 = mk("n.A", slots=("x",))
+  int_cls = loader.builtins.Lookup("builtins.int")
+  str_cls = loader.builtins.Lookup("builtins.str")
+  cts = [p.ClassType("A", c1), p.ClassType("A", c2), p.ClassType("A"), p.ClassType("m.A", c1),
+         p.ClassType("Alias", c1), p.ClassType("n.A", c2), p.ClassType("m.A"),
+         p.ClassType("int", int_cls), p.ClassType("builtins.int", int_cls), p.ClassType("builtins.int"),
+         p.ClassType("int"), p.ClassType("str", str_cls), p.ClassType("builtins.str", str_cls),
+         p.ClassType("builtins.str", int_cls)]
+  pool += cts
+  lst = p.ClassType("builtins.list", loader.builtins.Lookup("builtins.list"))
+  tup = p.ClassType("builtins.tuple", loader.builtins.Lookup("builtins.tuple"))
+  for a in cts:
+    pool.append(p.GenericType(lst, (a,)))
+    pool.append(p.GenericType(a, ()))
+  for a, b in [(cts[0], cts[1]), (cts[3], cts[4]), (cts[7], cts[8]), (cts[8], cts[7]), (cts[7], cts[11]),
+               (cts[0], cts[2]), (cts[8], cts[9]), (cts[4], cts[3]), (cts[10], cts[7])]:
+    pool.append(p.UnionType((a, b)))
+    pool.append(p.UnionType((b, a)))
+    pool.append(p.TupleType(tup, (a, b)))
+    pool.append(p.CallableType(p.ClassType("typing.Callable"), (a, b)))
+    pool.append(p.GenericType(lst, (p.UnionType((a, b)),)))
+  return pool, ast
+
+
+def resolved_oracles(env, res, pool, ast, stats):
+  """Consequences of the law on the real, resolved objects: == is an equivalence, sets/dicts keep no two equal
+  types, and which types are equal to which survives pickling."""
+  p = env.pytd
+  n = len(pool)
+  eq = [[bool(pool[i] == pool[j]) for j in range(n)] for i in range(n)]
+  orig = res
+  class _Capped:   # at most three reported violations per run
+    @staticmethod
+    def violation(fp, what, replay_obj):
+      if len(orig.violations) < 3 or fp in orig.known:
+        orig.violation(fp, what, replay_obj)
+  res = _Capped
+  def rp(i, j, k=None):
+    return {"kind": "eqhash-resolved", "i": i, "j": j, "k": k}
+  reported = 0
+  for i in range(n):
+    for j in range(n):
+      if eq[i][j] != eq[j][i] and reported < 2:
+        reported += 1
+        res.violation("eq-not-symmetric:%s" % type(pool[i]).__name__,
+                      "%r == %r is %s but the converse is %s" % (pool[i], pool[j], eq[i][j], eq[j][i]), rp(i, j))
+  cts = [i for i in range(n) if isinstance(pool[i], (p.ClassType, p.GenericType))]
+  done = False
+  for a in cts:
+    if done:
+      break
+    for b in cts:
+      if not eq[a][b] or done:
+        continue
+      for c in cts:
+        if eq[b][c] and not eq[a][c]:
+          res.violation("eq-not-transitive:%s" % type(pool[a]).__name__,
+                        "%r (name %r) == %r (name %r) == %r (name %r), but the first != the last" % (
+                            pool[a], getattr(pool[a], "name", None), pool[b], getattr(pool[b], "name", None),
+                            pool[c], getattr(pool[c], "name", None)), rp(a, b, c))
+          done = True
+          break
+  kept = list(set(pool))
+  dup = [(x, y) for ix, x in enumerate(kept) for y in kept[ix + 1:] if x == y]
+  if dup:
+    x, y = dup[0]
+    res.violation("set-keeps-equal-types:%s" % type(x).__name__,
+                  "set(pool) keeps %d pairs of equal types, e.g. %r and %r" % (len(dup), x, y),
+                  rp([k for k, z in enumerate(pool) if z is x][0], [k for k, z in enumerate(pool) if z is y][0]))
+  table = {}
+  for i, x in enumerate(pool):
+    table.setdefault(x, i)
+  miss = [(i, j) for i in range(n) for j in range(n) if eq[i][j] and pool[j] not in {pool[i]: 1}]
+  if miss and not dup:
+    i, j = miss[0]
+    res.violation("dict-misses-equal-type:%s" % type(pool[i]).__name__,
+                  "%r == %r but a dict keyed by the first does not find the second" % (pool[i], pool[j]), rp(i, j))
+  # equal before pickling <=> equal after decoding
+  canonical = ast.Visit(env.pytd_visitors.CanonicalOrderingVisitor())
+  before = collect_types(env, canonical)
+  eq_before = [[bool(a == b) for b in before] for a in before]
+  dec = env.pickle_utils.DecodeAst(env.pickle_utils.Serialize(ast))
+  env.builtin_stubs.InvalidateCache()
+  after = collect_types(env, dec.ast)
+  changed = None
+  if len(after) != len(before):
+    changed = ("count", len(before), len(after))
+  else:
+    for i, a in enumerate(after):
+      for j, b in enumerate(after):
+        if bool(a == b) != eq_before[i][j]:
+          changed = (i, j, eq_before[i][j])
+          break
+      if changed:
+        break
+  stats["resolved_ast_types"] = len(before)
+  if changed:
+    res.violation("eq-changes-across-pickle",
+                  "types #%s and #%s of the resolved stub are %s before pickling and the opposite after decoding" % changed
+                  if changed[0] != "count" else "resolved stub: %d type nodes before, %d after" % changed[1:],
+                  {"kind": "eqhash-resolved", "pickle": True})
+
+
 def exhaustive_pool(env):
   import itertools  # pylint: disable=import-outside-toplevel
   p = env.pytd
@@ -813,11 +1259,19 @@ def exhaustive_pool(env):
   return pool
 
 
-def eq_hash(env, res, model, pool, stats, mism, hv, decide=True):
+def eq_hash(env, res, model, pool, stats, mism, hv, decide=True, resolved=False):
   p = env.pytd
   n = len(pool)
   stats["pool"] = stats.get("pool", 0) + n
-  toks = [c12_gen.value_tokens(x) for x in pool]
+  cls_ref = {} if resolved else None
+  toks = [c12_gen.value_tokens(x, None, cls_ref) for x in pool]
+  if resolved:
+    describe = lambda x: "%r%s" % (x, " (name %r, cls %s)" % (x.name, "set" if x.cls is not None else "None")
+                                   if isinstance(x, p.ClassType) else "")
+    replay_of = lambda i, j: {"kind": "eqhash-resolved", "i": i, "j": j, "k": None}
+  else:
+    describe = c12_gen.to_expr
+    replay_of = lambda i, j: {"kind": "eqhash", "a": c12_gen.to_expr(pool[i]), "b": c12_gen.to_expr(pool[j])}
   eq = [[False] * n for _ in range(n)]
   hs = [hash(x) for x in pool]
   viol = []          # pairs violating the law on the real objects
@@ -877,12 +1331,12 @@ def eq_hash(env, res, model, pool, stats, mism, hv, decide=True):
           n_bad += 1
           if len(mism) < 20:
             mism.append({"check": "eqb-vs-==", "model": m_eq, "real": eq[i][j],
-                         "a": c12_gen.to_expr(pool[i])[:300], "b": c12_gen.to_expr(pool[j])[:300]})
+                         "a": describe(pool[i])[:300], "b": describe(pool[j])[:300]})
         if m_k and hs[i] != hs[j]:
           n_bad += 1
           if len(mism) < 20:
-            mism.append({"check": "hkey-equal-but-hash-differs", "a": c12_gen.to_expr(pool[i])[:300],
-                         "b": c12_gen.to_expr(pool[j])[:300]})
+            mism.append({"check": "hkey-equal-but-hash-differs", "a": describe(pool[i])[:300],
+                         "b": describe(pool[j])[:300]})
         if not m_k and hs[i] == hs[j]:
           n_incomplete += 1
         if eq[i][j] and not m_k and m_eq:
@@ -894,7 +1348,7 @@ def eq_hash(env, res, model, pool, stats, mism, hv, decide=True):
       for u in unions_in(env, x):
         if len({hash(m) for m in u.type_list}) != len(u.type_list):
           real_bad.append(i)
-    tag = "" if decide else ":exhaustive"
+    tag = ":resolved" if resolved else ("" if decide else ":exhaustive")
     res.obligation("correspondence:eqb/hkey-vs-==/hash" + tag, n_bad == 0, "%d of %d pairs disagree" % (n_bad, n * n))
     res.obligation("correspondence:members-hash-distinct" + tag, set(wf_bad) == set(real_bad),
                    "model %s real %s" % (wf_bad[:5], real_bad[:5]))
@@ -909,7 +1363,7 @@ def eq_hash(env, res, model, pool, stats, mism, hv, decide=True):
     order_only = (lines is not None and (i, j) in explained and has_permuted_union(env, a, b))
     if lines is None:
       order_only = has_permuted_union(env, a, b)
-    rp = {"kind": "eqhash", "a": c12_gen.to_expr(a), "b": c12_gen.to_expr(b)}
+    rp = replay_of(i, j)
     if order_only:
       reported_order += 1
       if reported_order > 3:
@@ -918,7 +1372,7 @@ def eq_hash(env, res, model, pool, stats, mism, hv, decide=True):
                     "%s == %s but their hashes differ (len({a, b}) == %d)" % (str(a)[:80], str(b)[:80], len({a, b})), rp)
     elif reported_other < 3:
       reported_other += 1
-      res.violation("eq-hash:%s" % type(a).__name__, "a == b but hash(a) != hash(b): %s / %s" % (str(a)[:120], str(b)[:120]), rp)
+      res.violation("eq-hash:%s" % type(a).__name__, "a == b but hash(a) != hash(b): %s / %s" % (describe(a)[:160], describe(b)[:160]), rp)
   stats["law_violating_pairs_real"] = stats.get("law_violating_pairs_real", 0) + len(viol)
 
 
@@ -1021,10 +1475,55 @@ def replay(res, path):
       ast = env.serialize_ast.PrepareForExport(rp["module"], ret.ast, loader)
     rt = roundtrip_real(env, ast, src_path="replay.py", metadata=["replay"])
     fail = oracle_failure(rt)
-    if not fail and "sa2" in rt and c12_gen.value_tokens(rt["sa2"]) != c12_gen.value_tokens(rt["sa"]):
+    if not fail and "sa2" in rt and rt["sa2_tokens"] != rt["sa_tokens"]:
       fail = "decoded SerializableAst differs structurally from the one encoded"
     print("round trip:", fail or "ok")
     return 1 if fail else 0
+  if kind == "eqhash-resolved":
+    pool, ast = resolved_pool(env)
+    if rp.get("pickle"):
+      r2 = common.Result("C12", "quick", 0)
+      r2.known = {}
+      resolved_oracles(env, r2, pool, ast, {})
+      bad = [v for v in r2.violations if v["fingerprint"] == "eq-changes-across-pickle"]
+      print("equal before pickling <=> equal after decoding:", "VIOLATED: " + bad[0]["what"] if bad else "holds")
+      return 1 if bad else 0
+    a, b = pool[rp["i"]], pool[rp["j"]]
+    show = lambda x: "%r name=%r cls=%s" % (x, getattr(x, "name", None), "<%s at %#x>" % (x.cls.name, id(x.cls)) if getattr(x, "cls", None) is not None else None)
+    print("a =", show(a))
+    print("b =", show(b))
+    print("a == b:", a == b, " b == a:", b == a, " hash(a) == hash(b):", hash(a) == hash(b), " len({a, b}):", len({a, b}))
+    bad = (a == b and hash(a) != hash(b)) or ((a == b) != (b == a)) or (a == b and len({a, b}) != 1)
+    if rp.get("k") is not None:
+      c = pool[rp["k"]]
+      print("c =", show(c))
+      print("b == c:", b == c, " a == c:", a == c)
+      bad = bad or (a == b and b == c and not a == c)
+    return 1 if bad else 0
+  if kind in ("history", "bundle"):
+    rh = common.rng(rp["seed"], "c12-history")
+    for rep in range(rp["rep"] + 1):
+      env.builtin_stubs.InvalidateCache()
+      cases = history_cases(env, rh, len(HIST_PROGRAMS))
+      if rep == rp["rep"] and kind == "history":
+        for name, ast, _, plain_bytes in cases:
+          if name == rp["case"]:
+            rt = roundtrip_real(env, ast, src_path="hist/%s.py" % name.split(":")[1], metadata=["m:" + name])
+            fail = oracle_failure(rt)
+            if not fail and "sa2" in rt and rt["sa2_tokens"] != rt["sa_tokens"]:
+              fail = "decoded SerializableAst differs structurally from the one encoded"
+            if not fail and rt.get("b1") != plain_bytes:
+              fail = "bytes depend on the lookup history (%d vs %d bytes)" % (len(rt["b1"]), len(plain_bytes))
+            print("%s (module serialised after lookups/printing/verification): %s" % (name, fail or "ok"))
+            return 1 if fail else 0
+      n_items, fails = bundle_cases(env, rh, res)
+      if rep == rp["rep"] and kind == "bundle":
+        for mod, fail in fails:
+          print("save_to_pickle/LoadBuiltins, module %s: %s" % (mod, fail))
+        if not fails:
+          print("bundle of %d modules: ok" % n_items)
+        return 1 if fails else 0
+    return 0
   if kind == "node":
     obj = eval(rp["expr"], env.ns())  # pylint: disable=eval-used
     ok, detail, _ = node_roundtrip_real(env, rp["spec"], obj)
